@@ -963,8 +963,7 @@ def self_test():
         assert verify(pub, msg, sig[:-1], ctx, ph)["reason"] == "signature length"
         assert verify(pub[:-1], msg, sig, ctx, ph)["reason"] == "public key length"
 
-    # Ed25519: S = L exactly (with R = neutral, A = neutral...) must be rejected;
-    # mixed-order signature: valid cofactored, invalid cofactorless.
+    # Ed25519 mixed-order signature: valid cofactored, invalid cofactorless.
     c = ec.CURVES["Ed25519"]
     seed = bytes(range(32))
     a, prefix = ec.ed25519_expand_seed(seed)
